@@ -7,7 +7,7 @@
    C01_layouts_refuted_for_scribbling_algorithms shows why (and names the known finding). *)
 From Coq Require Import List Bool Arith NArith.
 From TV Require Import Model.Engine Model.EngineToy Proofs.EngineMemo Proofs.EngineDirty Proofs.EngineHistory
-  Proofs.EngineScribble Proofs.EngineToyProofs.
+  Proofs.EngineScribble Proofs.EngineToyProofs Proofs.EngineNoScribble.
 Import ListNotations.
 
 (* a memoised evaluation returns what the cache-free evaluation of the same skeleton returns, keeps every cache entry
@@ -76,6 +76,21 @@ Proof.
   split; [exact A|]. split; [exact B|]. rewrite C, D. reflexivity.
 Qed.
 
+(* the positive counterpart: an algorithm that, asked for a size, issues only size queries and stores no layout
+   (NoScribble) leaves every stored layout of the subtree untouched when it answers a ComputeSize query (trees without
+   display:none nodes: hidden layout zeroes layouts in every run mode). taffy's block algorithm is not such an algorithm:
+   the harness counts its offending set_unrounded_layout calls on every traced pass (evidence key
+   layouts_written_under_a_ComputeSize_query_in_those_traces) *)
+Theorem C01_size_queries_write_no_layout_for_nonscribbling_algorithms :
+  forall (S In Out Lay : Type) (mode : In -> RunMode) (in_eqb : In -> In -> bool) (is_none : S -> bool)
+         (hidden_out : Out) (zero_lay : Lay) (algo : S -> list S -> In -> Alg In Out Lay),
+    (forall s st i, mode i = ComputeSize -> SizeOnly In Out Lay mode (algo s st i)) ->
+    forall f t i o t',
+      mode i = ComputeSize -> NoNone S In Out Lay is_none t ->
+      memo S In Out Lay mode in_eqb is_none hidden_out zero_lay algo f t i = Some (o, t') ->
+      lays S In Out Lay t' = lays S In Out Lay t /\ NoNone S In Out Lay is_none t'.
+Proof. intros until algo. intros HNS f t i o t' Hm HN H. eapply size_query_writes_no_layout; eauto. Qed.
+
 (* the hypotheses are satisfiable: the toy instance, and a concrete well-formed history on it *)
 Example C01_hypotheses_satisfiable :
   (forall a b, t_in_eqb a b = true -> a = b) /\
@@ -89,3 +104,4 @@ Print Assumptions C01_root_output_equals_fresh.
 Print Assumptions C01_fresh_inv.
 Print Assumptions C01_mark_dirty_noop.
 Print Assumptions C01_layouts_refuted_for_scribbling_algorithms.
+Print Assumptions C01_size_queries_write_no_layout_for_nonscribbling_algorithms.
